@@ -161,6 +161,7 @@ let oracle_c08_case script trace =
   let nmax = List.fold_left (fun m line -> match parse_line line with
       | Some ("now", a) -> max m (tnum (List.hd a.pos)) | _ -> m) 0 script in
   let fail m = if !err = None then err := Some m in
+  let stale = ref None in       (* a hit of the known staleness class does not stop the judgement of the rest of the case *)
   let next li k =
     match !tr with
     | [] -> fail (Printf.sprintf "step=%d missing-observation" li)
@@ -255,8 +256,40 @@ let oracle_c08_case script trace =
       let f = Hashtbl.find fx (str a "name" "") in
       next li (fun l ->
         let want = tp_is_inside f.f_st (z_of_int !clock) in
-        if tok_val (toks_of l) "is_inside" <> Some (if want then "1" else "0") then
-          fail (Printf.sprintf "step=%d op=now is_inside-attribute-disagrees-with-segments" li))
+        let got = tok_val (toks_of l) "is_inside" in
+        if got <> Some (if want then "1" else "0") then
+          fail (Printf.sprintf "step=%d op=now is_inside-attribute-disagrees-with-segments" li)
+        else if f.f_active && !clock >= f.f_n0 then begin
+          (* a started period at the present instant: the property read literally - "lies in an included / excluded
+             period" is what that period's own definition says (recursively), whatever has been computed so far *)
+          let (base, tab) = !zone in
+          let tz = z_of_int !clock in
+          let own_of g =
+            if g.f_ranges = [] then tp_inside_segs g.f_own tz
+            else tp_spec_inside (tp_tab_off base tab) (tp_tab_mk base tab) false None tp_back
+                (List.map (fun (_, dd, trs) -> (dd, trs)) g.f_ranges) tz in
+          let rec truth depth g =
+            if depth > 6 || not g.f_active then None
+            else
+              let sub names = List.fold_left (fun acc n ->
+                  match acc, Hashtbl.find_opt fx n with
+                  | None, _ -> None
+                  | acc, None -> acc                                   (* a name that does not exist is skipped *)
+                  | Some b, Some h -> (match truth (depth + 1) h with Some x -> Some (b || x) | None -> None)) (Some false) names in
+              match sub g.f_inc, sub g.f_exc with
+              | Some i, Some x -> Some (tp_region_spec g.f_prefer (own_of g) i x)
+              | _ -> None in
+          match truth 0 f with
+          | Some t when t <> want ->
+            let (si, sx) = f.f_snap in
+            let snap = tp_region_spec f.f_prefer (own_of f) (tp_inside_any si tz) (tp_inside_any sx tz) in
+            if snap = want then begin
+              if !stale = None then
+                stale := Some (Printf.sprintf "step=%d op=now name=%s now=%d violates-C08 stale-reference: is_inside at the clock differs from the statement and equals the statement with the referenced periods as they were when the period last recomputed" li (str a "name" "") !clock)
+            end else
+              fail (Printf.sprintf "step=%d op=now name=%s now=%d violates-C08 rolling now (is_inside at the clock differs from the statement)" li (str a "name" "") !clock)
+          | _ -> ()
+        end)
     | Some (("tp_add" | "tp_rm" | "tp_purge" | "tp_upd" | "tp_start") as opn, a) ->
       let name = str a "name" "" in
       let f = Hashtbl.find fx name in
@@ -308,7 +341,7 @@ let oracle_c08_case script trace =
            | Some what -> fail (Printf.sprintf "step=%d op=%s name=%s violates-C08 %s" li opn name what))
         | _ -> fail (Printf.sprintf "step=%d unexpected-line %s" li l))
     | _ -> ()) script;
-  !err
+  (match !err with Some _ -> !err | None -> !stale)
 
 let () =
   register_op "tp_pts" (fun a -> tp_pts := List.map tnum (split_c (List.hd a.pos) ','));
